@@ -80,6 +80,9 @@ SPLIT_ROLES = {
 }
 
 
+_GCFG = {}
+
+
 def split_call_wiring(pm, ctx, ku, pu, fit):
     f = pu.func("find_best_split")
     params = func_params(f)
@@ -107,6 +110,16 @@ def split_call_wiring(pm, ctx, ku, pu, fit):
             ctx.violation("C09-g", ku.relpath, "Kauri.fit", "find_best_split(...)", f"no argument for {p_} ({role[0]})", line=c.lineno, site=site)
             continue
         a = bound[p_]
+        if isinstance(a, ast.Name) and not (role[1] is not None and norm_src(a) in role[1]):
+            # a temporary holding the argument
+            try:
+                from ..match import resolve_expr, cfg_node
+                cfg_ = _GCFG.setdefault(id(fit), CFG(fit))
+                a_res = resolve_expr(cfg_, cfg_node(cfg_, c), a)
+                if not isinstance(a_res, ast.Name):
+                    a = a_res
+            except Exception:
+                pass
         src = norm_src(a)
         if role[1] is None:
             # feature subset: drawn from the seeded generator over the feature axis, without replacement
